@@ -434,4 +434,44 @@ def k8_pure(ctx):
             ctx.ok('K8', '%s writes no shared state' % short_fn(b), 'effects', site=b.loc)
 
 
-RULES = [('K5', k5_linear), ('K1', k1_inverse), ('K2', k2_definitions), ('K3', k3_kinds), ('K4', k4_walk), ('K4b', k4b_result), ('K6', k6_table), ('K7', k7_patterns), ('K8', k8_pure)]
+def k9_unit_words_free(ctx):
+    """K9 the money tokenizer runs before the unit tokenizer and claims 'N w' whenever w is a currency code or alias: no
+    spelling of a unit may be one (it would never be read as that unit again)"""
+    from ..data import all_groups, hir_accepts
+    ctx.rule('K9', 'unit spellings are not claimed by the money reader', floor=60)
+    cur = {}
+    for k, v in ctx.config.j.get('currency_alias', {}).items():
+        cur.setdefault(k.lower(), 'alias of %s' % v)
+    for k in ctx.config.j.get('currencies', {}):
+        cur.setdefault(k.lower(), 'currency code')
+    chirs = []
+    for p, h in ctx.config.parse_family('money'):
+        if h is None:
+            continue
+        g = all_groups(h)
+        if 'CURRENCY' in g:
+            chirs.append(g['CURRENCY'])
+    if not chirs:
+        raise AnchorLost('config.json parse.money: no regex with a CURRENCY group')
+    for fam, it in ctx.config.units():
+        for p in it['parse']:
+            words = [t[3] for t in abstract_tokens(p) if t[0] == 'field' and t[1] == 'TEXT' and t[3]] + [t[1] for t in abstract_tokens(p) if t[0] == 'word']
+            for w in words:
+                why = cur.get(w.lower())
+                if why and any(hir_accepts(h, w) or hir_accepts(h, w.lower()) for h in chirs):
+                    ctx.finding('K9', '%s/%s/claimed-by-money' % (fam, w), "the unit spelling %r (%s, pattern %r) is also a %s: the money reader takes 'N %s' first and the quantity is never read as a %s"
+                                % (w, fam, p, why, w, it['names'][0]), site='src/json/config.json types.%s[%d].parse' % (fam, it['index']))
+                else:
+                    ctx.ok('K9', 'unit spelling %r is not a currency word' % w, 'data', sample=False)
+
+
+RULES = [('K9', k9_unit_words_free), ('K5', k5_linear), ('K1', k1_inverse), ('K2', k2_definitions), ('K3', k3_kinds), ('K4', k4_walk), ('K4b', k4b_result), ('K6', k6_table), ('K7', k7_patterns), ('K8', k8_pure)]
+
+
+def k10_unique_fields(ctx):
+    """K10 a pattern that names two fields alike loses one of the matched tokens (shared rule)"""
+    from ..common import unique_field_names
+    unique_field_names(ctx, 'K10', ('dynamic_type_convert',), floor=1)
+
+
+RULES.append(('K10', k10_unique_fields))
